@@ -28,7 +28,9 @@ MANIFEST_ENTRY = dict(
          "every wallet.seed* file is opened with an independent PBKDF2-HMAC-SHA512 + ChaCha20-Poly1305 opener and with the "
          "code's opener under every password (and at every truncation length), and TLC judges the observations with the same "
          "predicates. TLC also explores every interleaving of the send / late-lock / self-send / invoice / self-invoice flows "
-         "over the per-transaction secrets (stored contexts, what a slate carries) checking NoClearSecret and FreshNonces, and "
+         "over the per-transaction secrets (stored contexts, what a slate carries) - including a third wallet that answers the same "
+         "slate with a second valid reply which the finalizer is handed after it has finalized - checking NoClearSecret, FreshNonces, "
+         "ContextConsumed (a finalized slate's private context is gone) and NonceSignsOnce (one nonce never signs two participant sets), and "
          "the generated behaviours run on real wallets: after every step every file under the wallet directories and every wire "
          "form of every slate is searched for the real seed, phrase and context secrets (raw, hex, base64, JSON-array), and no "
          "public nonce or excess may repeat across slate ids in the whole run; refinement (Layer M) ties both models to the code.",
@@ -242,7 +244,19 @@ def seed_part(tier, rnd, extra_sched=None, only_extra=False, extra_trunc=None, b
 
 # ------------------------------------------------------------------ Secrets
 def sec_features(b):
-    return wallet_checks.features(b)
+    """what a protocol behaviour exercises: the pair features of the wallet family plus, per slate, which calls
+    were made by whom (third wallet), through which path (api) and whether a finalize came AFTER a finalize"""
+    f = set(wallet_checks.features(b))
+    tags = []
+    for e in b:
+        t = "%s:%s:%s:%s:%s" % (e.get("ev"), e.get("stage", ""), e.get("w", ""), "api" if e.get("api") else "", "again" if e.get("again") else "")
+        tags.append((t, e.get("sl", "")))
+        f.add(("c12", t))
+    for i in range(len(tags)):
+        for j in range(i + 1, len(tags)):
+            if tags[i][1] and tags[i][1] == tags[j][1]:
+                f.add(("c12", tags[i][0], tags[j][0]))
+    return f
 
 
 def sec_part(tier, rnd, extra_beh=None, only_extra=False, setup=None):
@@ -251,7 +265,9 @@ def sec_part(tier, rnd, extra_beh=None, only_extra=False, setup=None):
     setups = {}
     per_cfg = {}
     for cfg in cfgs:
-        r = run_tlc("MCSecrets.tla", cfg, "c12_" + cfg.replace(".cfg", ""), extra=["-continue"], timeout=900)
+        # behaviours in which the finalizer is handed a second valid reply are sampled separately and kept first
+        r = run_tlc("MCSecrets.tla", cfg, "c12_" + cfg.replace(".cfg", ""), extra=["-continue"], timeout=900,
+                    max_keep=12000, prefer=("again",))
         if r["error"] and not r["completed"]:
             log(r["out"][-3000:])
             raise ToolError("TLC failed on " + cfg)
@@ -279,7 +295,17 @@ def sec_part(tier, rnd, extra_beh=None, only_extra=False, setup=None):
         stats.append({"cfg": "MC_C12_sec_atrest.cfg (NoClearSecretAtRest as a plain invariant)", "mutant": True, "states": r["states"],
                       "transitions": r["transitions"],
                       "NoClearSecretAtRest_violated_in_model": any("Inv_AtRestStrict" in t for t in r["violated"])})
-    n = 48 if tier == "quick" else 400
+        # seeded mutant of the spec: an invoice finalize that does not commit the deletion of its context
+        # must violate ContextConsumed and, with a second payer's reply, NonceSignsOnce
+        r = run_tlc("MCSecrets.tla", "MC_C12_sec_keepctx.cfg", "c12_sec_keepctx", extra=["-continue"], timeout=300)
+        viol = set(x for t in r["violated"] for x in t if x)
+        keep_ok = {"Inv_Consumed", "Inv_SignsOnce"} <= viol
+        stats.append({"cfg": "MC_C12_sec_keepctx.cfg (spec mutant: context not deleted by the invoice finalize)", "mutant": True,
+                      "states": r["states"], "transitions": r["transitions"],
+                      "ContextConsumed_and_NonceSignsOnce_violated_as_required": keep_ok})
+        if not keep_ok:
+            raise ToolError("vacuity guard: ContextConsumed / NonceSignsOnce not violated in the model with DropDelete = TRUE: %s" % sorted(viol))
+    n = 56 if tier == "quick" else 400
     chosen, generated = [], 0
     for cfg, all_b in per_cfg.items():
         generated += len(all_b)
